@@ -16,6 +16,7 @@ From V Require Import Gen.Cli Model.CliModel Spec.CliDoc.
 From V Require Import Gen.Tagfilter Model.Tagfilter Spec.GfmFilter.
 From V Require Import Spec.Shape.
 From V Require Import Spec.SpSpec.
+From V Require Import Gen.Nodes Gen.TableRows Spec.Valid.
 Extraction Language OCaml.
 Set Extraction KeepSingleton.
 
@@ -166,4 +167,19 @@ Extraction "model.ml"
   SpSpec.xml_sp_check
   SpSpec.xdrop_sp
   SpSpec.xml_sp_tree_check
+  Ast.all_kinds
+  Nodes.block
+  Nodes.contains_inlines
+  Nodes.accepts_lines
+  Nodes.can_contain
+  Valid.valid
+  Valid.validate
+  Valid.headings_ok
+  Valid.lists_ok
+  Valid.tables_ok
+  Valid.leaves_ok
+  Valid.structurally_valid
+  Valid.try_opening_row_cells
+  Valid.try_opening_header_cells
+  Valid.row_result
 .
